@@ -63,6 +63,11 @@ static const cdesc ctab[] = {
         { "SNOWVAEAD", IMB_CIPHER_SNOW_V_AEAD, 32, KT_RAW, 1, 0, 1 << 18, 16, IMB_AUTH_SNOW_V_AEAD,
           0 },
         { "SM4GCM", IMB_CIPHER_SM4_GCM, 16, KT_SM4GCM, 1, 0, 1 << 18, 12, IMB_AUTH_SM4_GCM, 0 },
+        /* caller-supplied cipher: the call-back XORs the range with 0x5a, or reports failure (sp->cfail bit 0) */
+        { "CUSTOM", IMB_CIPHER_CUSTOM, 16, KT_NONE, 1, 1, 4096, 0, 0, 0 },
+        /* PON: XGEM frame = 8-byte header (PLI, ..., HEC) + payload padded to 4 bytes; AES-CTR over the payload,
+         * Ethernet CRC inside the payload and BIP over the frame done together with it */
+        { "PON", IMB_CIPHER_PON_AES_CNTR, 16, KT_AES_ENC, 4, 0, 2048, 16, IMB_AUTH_PON_CRC_BIP, 0 },
 };
 #define NCTAB ((int) (sizeof(ctab) / sizeof(ctab[0])))
 
@@ -123,6 +128,8 @@ static const hdesc htab[] = {
         { "CRC8WIMAX", IMB_AUTH_CRC8_WIMAX_OFDMA_HCS, HT_NONE, 4, 0, 0, 1 << 18, 16, 0, 0, 0 },
         { "CRC7FP", IMB_AUTH_CRC7_FP_HEADER, HT_NONE, 4, 0, 0, 1 << 18, 16, 0, 0, 0 },
         { "CRC6IUUP", IMB_AUTH_CRC6_IUUP_HEADER, HT_NONE, 4, 0, 0, 1 << 18, 16, 0, 0, 0 },
+        /* caller-supplied hash: 16-byte XOR fold of the message, or failure (sp->cfail bit 1) */
+        { "CUSTOMH", IMB_AUTH_CUSTOM, HT_NONE, 16, 0, 0, 4096, 16, 0, 0, 0 },
         /* AEAD partners (never chosen on their own) */
         { "GMAC", IMB_AUTH_AES_GMAC, HT_AEAD, 16, 0, 0, 0, 16, 0, 1, 0 },
         { "CCMMAC", IMB_AUTH_AES_CCM, HT_AEAD, 16, 0, 0, 0, 16, 0, 0, 0 },
@@ -130,6 +137,7 @@ static const hdesc htab[] = {
         { "SNOWVMAC", IMB_AUTH_SNOW_V_AEAD, HT_AEAD, 16, 0, 0, 0, 16, 0, 0, 0 },
         { "SM4GMAC", IMB_AUTH_SM4_GCM, HT_AEAD, 16, 0, 0, 0, 16, 0, 1, 0 },
         { "DOCSISCRC", IMB_AUTH_DOCSIS_CRC32, HT_AEAD, 4, 0, 0, 0, 16, 0, 0, 0 },
+        { "PONCRCBIP", IMB_AUTH_PON_CRC_BIP, HT_AEAD, 8, 0, 0, 0, 16, 0, 0, 0 },
 };
 #define NHTAB ((int) (sizeof(htab) / sizeof(htab[0])))
 
@@ -199,7 +207,7 @@ const char *const hx_kinds[] = {
         "+CRC16FP", "+CRC11FP", "+CRC10IUUP", "+CRC8WIMAX", "+CRC7FP", "+CRC6IUUP",
         /* AEAD */
         "GCM128E", "GCM192D", "GCM256E", "GCM128D", "CCM128E", "CCM128D", "CCM256E", "CHAPOLYE",
-        "CHAPOLYD", "SNOWVAEADE", "SM4GCME", "SM4GCMD", "DOCSIS128E+DOCSISCRC",
+        "CHAPOLYD", "SNOWVAEADE", "SM4GCME", "SM4GCMD", "PONE", "POND", "DOCSIS128E+DOCSISCRC",
         "DOCSIS128D+DOCSISCRC", "DOCSIS256E+DOCSISCRC",
         /* chained: two OOO managers for one job, both orders */
         "CBC128E+HMAC1", "CBC128D+HMAC1", "CBC256E+HMAC256", "CBC192E+HMAC512", "CBC128E+XCBC",
@@ -207,8 +215,42 @@ const char *const hx_kinds[] = {
         "DES3-E+HMAC1", "CFB128E+HMAC224", "ZUC128E+ZUCEIA3", "SNOW3GE+SNOW3GUIA2",
         "CBC128E+HMAC1:HC", "CBC128D+HMAC1:CH", "CTR128E+CMAC:HC",
         "CHACHA20E+POLY", "ECB128E+SHA1", "CBCS128E+HMAC256", "DOCSIS128E+HMAC1",
+        /* decrypt direction / remaining key sizes of the symmetric stream modes (own rows of the dispatch tables) */
+        "CTR128D", "CTR256D", "CTRBIT192E", "CTRBIT256E", "CTRBIT128D", "ZUC128D", "ZUC256D", "SNOW3GD", "KASUMID",
+        "CHACHA20D", "SNOWVD", "SM4ECBD", "SM4CTRD", "DOCSIS256D", "SNOWVAEADD", "CCM256D", "GCM192E", "GCM256D",
+        "DOCSIS256D+DOCSISCRC",
+        "CUSTOME", "+CUSTOMH", "CUSTOME+HMAC1:HC", "CUSTOMD+HMAC256", "CUSTOME+CUSTOMH", "CBC128E+CUSTOMH",
 };
 const int hx_nkinds = (int) (sizeof(hx_kinds) / sizeof(hx_kinds[0]));
+
+int hx_custom_fail_rate; /* when n > 0: one CUSTOM call-back in n reports failure (schedule drivers only) */
+
+static int
+custom_cipher_ok(IMB_JOB *job)
+{
+        const uint8_t *s = job->src + job->cipher_start_src_offset_in_bytes;
+        for (uint64_t i = 0; i < job->msg_len_to_cipher_in_bytes; i++)
+                job->dst[i] = (uint8_t) (s[i] ^ 0x5a);
+        return 0;
+}
+
+static int
+custom_hash_ok(IMB_JOB *job)
+{
+        const uint8_t *s = job->src + job->hash_start_src_offset_in_bytes;
+        uint8_t acc[16] = { 0 };
+        for (uint64_t i = 0; i < job->msg_len_to_hash_in_bytes; i++)
+                acc[i & 15] = (uint8_t) (acc[i & 15] * 3 + s[i] + 1);
+        memcpy(job->auth_tag_output, acc, job->auth_tag_output_len_in_bytes > 16 ? 16 : job->auth_tag_output_len_in_bytes);
+        return 0;
+}
+
+static int
+custom_fail(IMB_JOB *job)
+{
+        (void) job;
+        return 1;
+}
 
 int hx_docsis_shape = -1; /* DOCSIS+CRC32: 0 cipher without CRC, 1 CRC without cipher, 2 both, -1 random */
 int hx_len_long; /* when set: lengths 520..3520 */
@@ -271,10 +313,16 @@ spec_fill(const cdesc *c, const hdesc *h, int dir, int order_override, hx_rng *r
         if (c->cm == IMB_CIPHER_SM4_CNTR && hx_below(r, 3) == 0)
                 sp->ivlen = 12;
 
+        if (hx_custom_fail_rate > 0) {
+                if (c->cm == IMB_CIPHER_CUSTOM && hx_below(r, (uint32_t) hx_custom_fail_rate) == 0)
+                        sp->cfail |= 1;
+                if (h->ha == IMB_AUTH_CUSTOM && hx_below(r, (uint32_t) hx_custom_fail_rate) == 0)
+                        sp->cfail |= 2;
+        }
         /* default order as the documentation recommends */
         if (c->cm == IMB_CIPHER_NULL)
                 sp->order = IMB_ORDER_HASH_CIPHER;
-        else if (c->cm == IMB_CIPHER_CCM || h->ha == IMB_AUTH_DOCSIS_CRC32)
+        else if (c->cm == IMB_CIPHER_CCM || h->ha == IMB_AUTH_DOCSIS_CRC32 || h->ha == IMB_AUTH_PON_CRC_BIP)
                 sp->order = dir == IMB_DIR_ENCRYPT ? IMB_ORDER_HASH_CIPHER : IMB_ORDER_CIPHER_HASH;
         else
                 sp->order = dir == IMB_DIR_ENCRYPT ? IMB_ORDER_CIPHER_HASH : IMB_ORDER_HASH_CIPHER;
@@ -297,6 +345,13 @@ spec_fill(const cdesc *c, const hdesc *h, int dir, int order_override, hx_rng *r
                 /* CBCS 1:9 writes only the encrypted blocks: defined for in-place use only */
                 if (c->cm == IMB_CIPHER_CBCS_1_9)
                         sp->inplace = 1;
+                /* PON: destination = source + cipher offset by definition, whatever hash is named */
+                if (c->cm == IMB_CIPHER_PON_AES_CNTR) {
+                        sp->inplace = 1;
+                        sp->coff = 8;
+                        if (sp->len < 4)
+                                sp->len = 4;
+                }
         }
         if (h->ha != IMB_AUTH_NULL) {
                 /* tag length */
@@ -334,6 +389,24 @@ spec_fill(const cdesc *c, const hdesc *h, int dir, int order_override, hx_rng *r
                                 sp->hlen = sp->len;
                                 sp->hoff = sp->coff;
                                 break;
+                        case IMB_AUTH_PON_CRC_BIP: {
+                                if (c->cm != IMB_CIPHER_PON_AES_CNTR) {
+                                        sp->hlen = 8 + ((sp->len + 3) & ~3u);
+                                        sp->hoff = sp->coff;
+                                        break;
+                                }
+                                /* PLI = payload length; the ciphered range is the payload padded to 4 bytes */
+                                uint32_t pli = hx_below(r, 6) == 0 ? hx_below(r, 6) : 5 + hx_below(r, hx_below(r, 2) ? 80 : 1500);
+                                if (hx_force_len >= 0)
+                                        pli = (uint32_t) hx_force_len > 2040 ? 2040 : (uint32_t) hx_force_len;
+                                sp->pli = pli;
+                                sp->len = (pli + 3) & ~3u;
+                                sp->hoff = 0;
+                                sp->coff = 8;
+                                sp->hlen = 8 + sp->len;
+                                sp->inplace = 1;
+                                break;
+                        }
                         case IMB_AUTH_DOCSIS_CRC32: {
                                 if (c->cm != IMB_CIPHER_DOCSIS_SEC_BPI) {
                                         /* mismatched pairing (to be rejected): keep the cipher part valid */
@@ -517,6 +590,11 @@ hx_job_build(IMB_MGR *mgr, const hx_spec *sp, int id, hx_job *j)
         j->src_size = total;
         j->src = ga_alloc(total, 1, pl, "src", id);
         hx_fill(&r, j->src, total);
+        if (sp->cm == IMB_CIPHER_PON_AES_CNTR && sp->ha == IMB_AUTH_PON_CRC_BIP && total >= (size_t) sp->hoff + 8) {
+                /* XGEM header: 14 most significant bits = PLI */
+                j->src[sp->hoff] = (uint8_t) (sp->pli >> 6);
+                j->src[sp->hoff + 1] = (uint8_t) ((j->src[sp->hoff + 1] & 0x03) | ((sp->pli & 0x3f) << 2));
+        }
         j->src_snapshot = malloc(total);
         memcpy(j->src_snapshot, j->src, total);
 
@@ -572,6 +650,10 @@ hx_job_build(IMB_MGR *mgr, const hx_spec *sp, int id, hx_job *j)
         t->msg_len_to_hash_in_bytes = sp->hlen;
         t->auth_tag_output = j->tag;
         t->auth_tag_output_len_in_bytes = sp->taglen;
+        if (sp->cm == IMB_CIPHER_CUSTOM)
+                t->cipher_func = (sp->cfail & 1) ? custom_fail : custom_cipher_ok;
+        if (sp->ha == IMB_AUTH_CUSTOM)
+                t->hash_func = (sp->cfail & 2) ? custom_fail : custom_hash_ok;
         t->user_data = (void *) (uintptr_t) (0x1000000u + (unsigned) id);
         t->user_data2 = (void *) (uintptr_t) (sp->seed | 1);
         if (c->bitlen && sp->cm != IMB_CIPHER_NULL) {
@@ -812,6 +894,7 @@ hx_job_build(IMB_MGR *mgr, const hx_spec *sp, int id, hx_job *j)
                         t->u.SNOW_V_AEAD.aad_len_in_bytes = sp->aadlen;
                         break;
                 case IMB_AUTH_DOCSIS_CRC32:
+                case IMB_AUTH_PON_CRC_BIP: /* HEC and CRC are updated in the source frame */
                         j->src_written_ok = 1;
                         break;
                 }
@@ -857,8 +940,8 @@ hx_job_to_slot(const hx_job *j, IMB_JOB *slot)
         slot->chain_order = t->chain_order;
         slot->user_data = t->user_data;
         slot->user_data2 = t->user_data2;
-        slot->cipher_func = NULL;
-        slot->hash_func = NULL;
+        slot->cipher_func = t->cipher_func;
+        slot->hash_func = t->hash_func;
         slot->sgl_state = t->sgl_state;
         slot->cipher_fields = t->cipher_fields;
 }
@@ -875,7 +958,20 @@ out_bytes(const hx_job *j)
 int
 hx_tag_defined(const hx_spec *sp)
 {
-        return !(sp->ha == IMB_AUTH_DOCSIS_CRC32 && sp->hlen < 14);
+        return hx_tag_cmp_len(sp) != 0;
+}
+
+/* number of leading tag bytes that are an output of the job: everything, except that DOCSIS+CRC32 below 14
+ * hashed bytes requests no CRC, and PON with PLI <= 4 computes no Ethernet CRC (the BIP half, bytes 0..3, is
+ * defined; bytes 4..7 receive whatever the CRC register held) */
+uint32_t
+hx_tag_cmp_len(const hx_spec *sp)
+{
+        if (sp->ha == IMB_AUTH_DOCSIS_CRC32 && sp->hlen < 14)
+                return 0;
+        if (sp->ha == IMB_AUTH_PON_CRC_BIP && sp->cm == IMB_CIPHER_PON_AES_CNTR && sp->pli <= 4)
+                return 4;
+        return sp->taglen;
 }
 
 int
@@ -894,7 +990,7 @@ hx_job_cmp_out(const hx_job *a, const hx_job *b)
                 } else if (memcmp(a->dst, b->dst, n) != 0)
                         d |= 1;
         }
-        if (a->tag && b->tag && a->sp.taglen && hx_tag_defined(&a->sp) && memcmp(a->tag, b->tag, a->sp.taglen) != 0)
+        if (a->tag && b->tag && hx_tag_cmp_len(&a->sp) && memcmp(a->tag, b->tag, hx_tag_cmp_len(&a->sp)) != 0)
                 d |= 2;
         if (a->next_iv && b->next_iv && memcmp(a->next_iv, b->next_iv, 16) != 0)
                 d |= 4;
